@@ -72,12 +72,15 @@ ParamList == <<DefaultParams,
                [gran |-> <<1000>>, latoff |-> <<7>>, lonoff |-> <<-5>>, dgran |-> <<2500>>]>>
 SeedParams(seed) == ParamList[(seed % 5) + 1]
 
+\* bh: which optional parts the BlobHeader of the file block carries (0 none, 1-3 indexdata of several lengths / contents,
+\* 4 unknown fields, 5 both) - like zlib and rev a layout choice of the writer, irrelevant for the content
+BHOf(b, zlib, rev) == (b + (IF zlib THEN 2 ELSE 0) + (IF rev THEN 3 ELSE 0)) % 6
 Block(b, p, zlib, rev, groups) ==
   [gran |-> p.gran, latoff |-> p.latoff, lonoff |-> p.lonoff, dgran |-> p.dgran,
-   zlib |-> zlib, rev |-> rev, st |-> St(b), groups |-> groups]
+   zlib |-> zlib, rev |-> rev, bh |-> BHOf(b, zlib, rev), st |-> St(b), groups |-> groups]
 
 DefaultHeader == [bbox |-> << >>, req |-> <<"OsmSchema-V0.6", "DenseNodes">>, opt |-> << >>, prog |-> << >>, src |-> << >>,
-                  rts |-> << >>, rseq |-> << >>, rurl |-> << >>, zlib |-> TRUE, rev |-> FALSE]
+                  rts |-> << >>, rseq |-> << >>, rurl |-> << >>, zlib |-> TRUE, rev |-> FALSE, bh |-> 0]
 File(h, blocks) == [header |-> h, blocks |-> blocks]
 Case(fam, procs, file) == [fam |-> fam, procs |-> procs, file |-> file]
 
@@ -225,12 +228,18 @@ FamBuild(fam, full, seed, x) ==
     [] fam = "header" ->
          LET f == x[1]   OptF(b, v) == IF b THEN <<v>> ELSE << >> IN
          Case("header", <<1, 2>>, File(
-            [bbox |-> IF f[1] THEN <<-170, 175, 85, -80>> ELSE << >>,
+            \* <<left, right, top, bottom>>: also a box crossing the antimeridian (left > right) and one with bottom > top -
+            \* Header() must report the corners as written
+            [bbox |-> IF ~f[1] THEN << >>
+                      ELSE IF f[2] /\ f[5] THEN <<177, -178, -20, 20>>
+                      ELSE IF f[2] THEN <<177, -178, 10, -10>>
+                      ELSE IF f[5] THEN <<-10, 10, -20, 20>>
+                      ELSE <<-170, 175, 85, -80>>,
              req  |-> IF f[2] THEN <<"OsmSchema-V0.6", "DenseNodes", "HistoricalInformation">> ELSE (IF f[3] THEN << >> ELSE <<"DenseNodes">>),
              opt  |-> IF f[3] THEN <<4, 2>> ELSE (IF f[2] THEN <<5>> ELSE << >>),
              prog |-> OptF(f[4], 3), src |-> OptF(f[5], IF f[4] THEN 0 ELSE 6),
              rts  |-> OptF(f[6], IF f[7] THEN 0 ELSE 9), rseq |-> OptF(f[7], IF f[6] THEN 12 ELSE 0), rurl |-> OptF(f[8], 7),
-             zlib |-> x[2], rev |-> x[3]],
+             zlib |-> x[2], rev |-> x[3], bh |-> Cardinality({i \in 1 .. 8 : f[i]}) % 6],
             << Block(1, DefaultParams, TRUE, FALSE, <<DenseG(1, 1, [info |-> FALSE, cols |-> {}, kv |-> FALSE], <<0>>)>>) >>))
     [] fam = "unsorted" -> Case("unsorted", <<1, 2, 3, 16>>, UnsortedFile(x[1], seed))
     [] fam = "probe" ->
